@@ -14,6 +14,19 @@
   * `ipv6Spec` / `cidrv6Spec` — RFC 4291 §2.2 text forms of an IPv6 address (specification side;
       the library documents no more precise definition).
 
+  Structure fingerprints.  The translator (harness/cmd/c20 -gen) extracts from pkg/validate/validate.go, for every
+  parser-based validator, the calls through a selector and the basic literals of its body (transitively inside the
+  package) as `Gen.fp_<fmt>`; vlib/c20.py compares it with the expectation recorded here.  A mismatch means the
+  transcription below may no longer be what the code does: the tie is broken (the correspondence run then looks for
+  a concrete failing input).
+
+  -- fingerprint ipv6: func IPv6 reflectx.StringVal netip.ParseAddr addr.Is6 addr.Zone ""
+  -- fingerprint cidrv4: func CIDRv4 4 func CIDR reflectx.StringVal netip.ParsePrefix 0 4 .Is4 prefix.Addr 6 .Is6 prefix.Addr
+  -- fingerprint cidrv6: func CIDRv6 6 func CIDR reflectx.StringVal netip.ParsePrefix 0 4 .Is4 prefix.Addr 6 .Is6 prefix.Addr
+  -- fingerprint base64url: func Base64URL reflectx.StringVal .MatchString strings.HasSuffix "=" 4 0 4 1
+  -- fingerprint isodate: func ISODate reflectx.StringVal time.Parse "2006-01-02"
+  -- fingerprint isodatetime: func ISODateTime reflectx.StringVal .MatchString time.Parse
+
   Core-only.
 -/
 import Gozod.Model.FormatSpec
@@ -155,6 +168,10 @@ def cidrv6Spec (s : List Nat) : Bool :=
 /-- validate.CIDRv4 after pending/C20-cidr.diff: netip.ParsePrefix ∧ Is4 — a dotted quad without
     leading zeros, '/', a canonical decimal 0–32: the definition itself -/
 def goCIDRv4 : List Nat → Bool := cidrv4.run
+
+/-- validate.IPv6 after pending/C20-ipv6.diff: netip.ParseAddr ∧ Is6 ∧ Zone() == "" — netip's IPv6 syntax is RFC 4291 §2.2
+    (eight groups, one "::" for at least one group, a dotted quad without leading zeros for the last two groups): the definition itself -/
+def goIPv6 : List Nat → Bool := ipv6.run
 
 /-- validate.CIDRv6 (netip.ParsePrefix ∧ Is6, fix a919100): netip's address syntax is RFC 4291 §2.2 without zone,
     the prefix length a canonical decimal 0–128: the definition itself -/
